@@ -254,7 +254,7 @@ def h11b(c, n=2):
         # a bet of a strategy the restarted instance does not know
         ghost_s = cm.RecordingStrategy(market_filter={}, name="someone-else")
         g = Trade(cm.MID, 1, 0, ghost_s).create_order("BACK", cm.LimitOrder(2.0, 2.0))
-        snap_unknown = cm.current_order(g.customer_order_ref, "999", size=2.0)
+        snap_unknown = cm.current_order(g.customer_order_ref, "999", size=2.0, market_id="1.199999999")
         with c.guard("pre-crash-snapshot"):
             fl1._process_current_orders(cm.current_orders_event(client1, snap + [snap_unknown]))
         # ---- restart: new instance, same strategy name (hence the same hash), empty state
@@ -262,13 +262,15 @@ def h11b(c, n=2):
         n_dup = c.choose("snapshot_deliveries", [1, 2])
         with c.guard("post-restart-snapshot"):
             for _ in range(n_dup):
-                fl2._process_current_orders(cm.current_orders_event(client2, snap + [snap_unknown]))
+                fl2._process_current_orders(cm.current_orders_event(client2, [snap_unknown] + snap))
         m2 = fl2.markets.markets.get(cm.MID)
         c.ob("restart.market-created", m2 is not None)
         if m2 is None:
             return
         c.ob("restart.every-bet-adopted-exactly-once", sorted(o.bet_id for o in m2.blotter) == sorted(co.bet_id for co in snap), got=len(m2.blotter))
         c.ob("restart.unknown-strategy-ignored", all(o.bet_id != "999" for o in m2.blotter) and all(o.bet_id != "999" for o in m1.blotter))
+        c.ob("restart.unknown-strategy-leaves-no-trace", sorted(fl2.markets.markets) == [cm.MID] and sorted(fl1.markets.markets) == [cm.MID],
+             markets=str(sorted(fl2.markets.markets)))
         for o in m2.blotter:
             c.ob("restart.adopted-into-right-strategy", o.trade.strategy is s2)
         for lk in sorted(lookups):
